@@ -318,15 +318,16 @@ def p1_import_combos(tier):
     return [[], [0], [3], [0, 1], [2, 3]]
 
 
-def p1_sheet(imports, rules, k0):
-    """abstract sheet of a part-1 case: imports = indices into IMPORT_FORMS, rules = [ctx, form1, form2] specs"""
+def p1_sheet(imports, rules, k0, comments=False):
+    """abstract sheet of a part-1 case: imports = indices into IMPORT_FORMS, rules = [ctx, form1, form2] specs;
+    comments: a comment in front of every rule (also between two @import rules: comments are rules of the DOM)"""
     urls = _Urls(k0)
     imps = []
     for n, i in enumerate(imports):
         form, media = IMPORT_FORMS[i]
         # first import is served by the fetcher, the second is unavailable
         imps.append([('ok-%d.css' if n == 0 else '../gone-%d.css') % n, form, media])
-    return {'charset': None, 'imports': imps, 'rules': [_p1_rule(s, i, urls) for i, s in enumerate(rules)]}
+    return {'charset': None, 'imports': imps, 'rules': [_p1_rule(s, i, urls) for i, s in enumerate(rules)], 'comments': comments}
 
 
 def _p1_fetch(url):
@@ -372,7 +373,7 @@ def _first_diff(a, b):
 
 def run_urls_case(res, case):
     """one part-1 sheet: all five clauses"""
-    sheet = p1_sheet(case['imports'], case['rules'], case['k0'])
+    sheet = p1_sheet(case['imports'], case['rules'], case['k0'], case.get('comments', False))
     text = ref.render_sheet(sheet)
     want = ref.url_list(sheet)
     n_imp = len(sheet['imports'])
@@ -1192,9 +1193,12 @@ def run_shard(shard, tier, seed):
         if r1 < 0:
             for k0 in range(len(URL_KINDS)):
                 run_urls_case(res, {'kind': 'urls', 'imports': imports, 'rules': [], 'k0': k0})
+            if imports:
+                run_urls_case(res, {'kind': 'urls', 'imports': imports, 'rules': [], 'k0': 0, 'comments': True})
         else:
             for k0 in range(len(URL_KINDS)):
                 run_urls_case(res, {'kind': 'urls', 'imports': imports, 'rules': [menu[r1]], 'k0': k0})
+            run_urls_case(res, {'kind': 'urls', 'imports': imports, 'rules': [menu[r1]], 'k0': 0, 'comments': True})
             if imports in p1_import_combos(tier):
                 for r2 in menu:
                     run_urls_case(res, {'kind': 'urls', 'imports': imports, 'rules': [menu[r1], r2], 'k0': 0})
@@ -1241,7 +1245,7 @@ def replay(case, tier, seed):
 
 def standalone(case, v):
     if case['kind'] == 'urls':
-        sheet = p1_sheet(case['imports'], case['rules'], case['k0'])
+        sheet = p1_sheet(case['imports'], case['rules'], case['k0'], case.get('comments', False))
         text = ref.render_sheet(sheet)
         return (
             'import cssutils\n'
